@@ -366,12 +366,13 @@ func (g *generator) generate() *history {
 		}
 	}
 	if g.split {
-		for i := 0; i < 7; i++ {
-			g.push(op{Kind: "commit", Signer: idAdmin})
-		}
+		g.splitBootstrap()
 	}
 	n := 30 + g.rnd(30)
 	for i := 0; i < n; i++ {
+		if g.split && g.rnd(5) == 0 && g.topUpThenUnauthorizeMore() {
+			continue
+		}
 		if g.regime == "approve" {
 			if pend := g.pending(); len(pend) > 0 && g.rnd(3) == 0 {
 				p := pend[g.rnd(len(pend))]
@@ -389,6 +390,55 @@ func (g *generator) generate() *history {
 		g.push(g.next())
 	}
 	return g.h
+}
+
+// splitBootstrap (C10): every peer accepts authorizations, most peers share their fees (cost below
+// 100, set two epochs ahead as the contract requires), the authorizers hold positions, and the
+// chain is past view 9 so that the costs are in force and every commit settles with executeSplit2.
+func (g *generator) splitBootstrap() {
+	for _, p := range g.o.Pool {
+		g.push(op{Kind: "maxauth", Signer: p.Owner, Addr: p.Owner, Peer: p.Peer, Amount: uint32(20 * p.Init)})
+		if g.rnd(5) != 0 {
+			if g.regime == "selfgov" && g.rnd(2) == 0 {
+				g.push(op{Kind: "feepct", Signer: p.Owner, Addr: p.Owner, Peer: p.Peer, Amount: uint32(g.rnd(80)), Pos: []uint32{uint32(g.rnd(80))}})
+			} else {
+				g.push(op{Kind: "peercost", Signer: p.Owner, Addr: p.Owner, Peer: p.Peer, Amount: uint32(g.rnd(80))})
+			}
+		}
+	}
+	for a := firstAuth; a < outsider; a++ {
+		for j := 0; j < 2; j++ {
+			p := g.o.Pool[g.rnd(len(g.o.Pool))]
+			g.push(op{Kind: "authorize", Signer: a, Addr: a, Peers: []int{p.Peer}, Pos: []uint32{uint32(500 * (2 + g.rnd(20)))}})
+		}
+	}
+	for i := 0; i < 20 && g.o.View < 10; i++ {
+		g.push(op{Kind: "commit", Signer: idAdmin})
+	}
+}
+
+// topUpThenUnauthorizeMore (C10): within one epoch an address that already holds Consensus or
+// Candidate positions on a peer authorizes n more and then unauthorizes more than n.
+func (g *generator) topUpThenUnauthorizeMore() bool {
+	var held []infoObs
+	for _, i := range g.o.Infos {
+		if i.B[0]+i.B[1] >= 500 {
+			for _, p := range g.o.Pool {
+				if p.Peer == i.Peer && isActive(&p) && p.Owner != i.Addr {
+					held = append(held, i)
+				}
+			}
+		}
+	}
+	if len(held) == 0 {
+		return false
+	}
+	i := held[g.rnd(len(held))]
+	n := uint32(500 * (1 + g.rnd(10)))
+	more := uint32(500 * (1 + uint64(g.rnd(int((i.B[0]+i.B[1])/500)))))
+	g.push(op{Kind: "authorize", Signer: i.Addr, Addr: i.Addr, Peers: []int{i.Peer}, Pos: []uint32{n}})
+	g.push(op{Kind: "unauthorize", Signer: i.Addr, Addr: i.Addr, Peers: []int{i.Peer}, Pos: []uint32{n + more}})
+	return true
 }
 
 // probes: fixed histories executed on every run (whatever the seed): the paths the property is
